@@ -89,7 +89,7 @@ VDT = {"int": ["int64", "int32", "int16"], "uint": ["uint16", "uint32", "uint64"
 
 
 def swarm(rng):
-    ops = ["get", "getv", "set", "setv", "fill", "contains", "derive", "add", "eq", "items", "repr", "new"]
+    ops = ["get", "getv", "set", "setv", "fill", "contains", "derive", "add", "eq", "items", "repr", "new", "count"]
     en = [o for o in ops if rng.random() < 0.75]
     for must in ("getv",):
         if must not in en:
@@ -129,6 +129,8 @@ class Hist:
         cls = cls or rng.choice(["HashTable", "HashTable", "HashTable", "HashSet", "Counter"])
         h = self.fresh()
         op = {"op": "new", "cls": cls, "dst": h, "keys": keys, "key_dtype": dt, "mod": mod}
+        if rng.random() < 0.2:
+            op["keys_as_list"] = True          # Python-list keys + key_dtype= keyword
         if cls == "HashSet":
             vkind = "int"
             model = {k: 0 for k in keys}
@@ -215,6 +217,8 @@ class Hist:
         vk = self.info[h]["vkind"]
         if n is None or rng.random() < 0.4:
             return ["scalar", vkind_values(rng, vk, 1)[0]]
+        if rng.random() < 0.25:
+            return ["list", None, vkind_values(rng, vk, n)]      # a plain Python list of per-key values
         return ["arr", rng.choice(VDT[vk]) if vk != "bool" else "bool", vkind_values(rng, vk, n)]
 
     def qform(self, h, op):
@@ -306,8 +310,42 @@ class Hist:
         if h is None:
             return
         cls = self.info[h]["cls"]
+        if k == "count":
+            # counters inside ordinary table histories (a Counter is a HashTable): batches of keys and non-keys
+            cs = [x for x in self.m if self.info[x]["cls"] == "Counter" and self.info[x]["vkind"] in ("int", "uint")]
+            if not cs:
+                return
+            h = rng.choice(cs)
+            keys = list(self.m[h])
+            batch = []
+            for _ in range(rng.randint(0, 12)):
+                if rng.random() < 0.7:
+                    batch.append(rng.choice(keys))
+                else:
+                    a = self.absent_key(h)
+                    if a is not None:
+                        batch.append(a)
+            op = {"op": "count", "h": h, "batch": batch}
+            ki = np.iinfo(self.info[h]["dt"])
+            if all(int(ki.min) <= x <= int(ki.max) for x in batch) and rng.random() < 0.5:
+                op["b_dtype"] = self.info[h]["dt"]
+            elif self.info[h]["dt"] != "uint64" and batch and rng.random() < 0.4:
+                op["as_list"] = True
+            elif self.info[h]["dt"] == "uint64":
+                op["b_dtype"] = "uint64"
+            self.ops.append(op)
+            for x in batch:
+                if x in self.m[h]:
+                    self.m[h][x] += 1
+            if any(x in self.m[h] for x in batch):
+                self.info[h]["scalar_state"] = False
+            self.sig.append("count")
+            return
         if k == "get":
-            self.ops.append({"op": "get", "h": h, "key": rng.choice(list(self.m[h]))})
+            op = {"op": "get", "h": h, "key": rng.choice(list(self.m[h]))}
+            if rng.random() < 0.25:
+                op["np_key"] = self.info[h]["dt"]
+            self.ops.append(op)
         elif k == "getv":
             keys = self.some_keys(h, faults)
             op = {"op": "getv", "h": h, "keys": keys}
@@ -317,6 +355,8 @@ class Hist:
             if cls == "HashSet":
                 return
             self.ops.append({"op": "set", "h": h, "key": rng.choice(list(self.m[h])), "value": self.value_for(h)})
+            if rng.random() < 0.25:
+                self.ops[-1]["np_key"] = self.info[h]["dt"]
             self.m[h][self.ops[-1]["key"]] = self.ops[-1]["value"][1]
             self.info[h]["scalar_state"] = False
         elif k == "setv":
